@@ -37,7 +37,7 @@ def fmt_case(now0, life, lim, progs):
 class Check(DiffCheck):
     id = 'C19'
     coq_dirs = ['Base', 'C19']
-    coq_targets = ['C19/C19_Proofs.vo']
+    coq_targets = ['C19/C19_Proofs.vo', 'C19/C19_V2.vo']
     properties_v = 'C19/C19_Properties.v'
     extract_v = 'C19/C19_Extract.v'
     runner_ml = 'ocaml/C19_run.ml'
@@ -130,7 +130,7 @@ class Check(DiffCheck):
                         h = open_h.pop(rng.randrange(len(open_h)))
                     else:
                         h = rng.randrange(0, nacq + 1)
-                    rc = 1 if rng.random() < 0.3 else 0
+                    rc = 1 if rng.random() < 0.15 else 0
                     ops.append(('R', h, rc, 0 if rng.random() < 0.4 else 1))
                 elif r < 0.80:
                     ops.append(('X',))
@@ -158,7 +158,7 @@ class Check(DiffCheck):
                     if not vclock and self._timed(l): continue
                     cs.append(l)
         cs += self._scenarios(vclock)
-        n = 1500 if tier == 'quick' else 30000
+        n = 500 if tier == 'quick' else 20000
         for _ in range(n):
             cs.append(self._random_case(rng, vclock))
         return list(dict.fromkeys(cs))
